@@ -1011,7 +1011,19 @@ pub fn run_episode(tape: Tape, env: &Env, check_c18: bool) -> Outcome {
                     format!("the configuration {argv:?} passed the command-line validation and the builder but tracing panicked: {p}"),
                 ));
             }
-            RunEnd::Err(e, _) => counters.add(&format!("trace.err.{}", e.split(':').next().unwrap_or("")), 1),
+            RunEnd::Err(e, _) => {
+                counters.add(&format!("trace.err.{}", e.split(':').next().unwrap_or("")), 1);
+                // no socket fault was injected: the configuration itself cannot run, which the
+                // command line and the builder had to say up front
+                if rec.world.faults.is_empty() {
+                    let kind: String = e.split(':').next().unwrap_or("error").chars().map(|c| if c.is_ascii_alphanumeric() { c } else { '-' }).collect();
+                    violations.push(Violation::new(
+                        "C16",
+                        format!("c16.cli.late-error.{kind}"),
+                        format!("the configuration {argv:?} passed the command-line validation and the builder, no socket call failed, but tracing ended with: {e}"),
+                    ));
+                }
+            }
             _ => counters.add("trace.ok", 1),
         }
         if rec.world.harness_error.is_some() {
